@@ -111,6 +111,8 @@ impl<T> Block<T> {
         // Try to increment the index.  If we've reached the end of the block, let the bucket know
         // so it can attach another block.
         let index = self.write.fetch_add(1, Ordering::AcqRel);
+        #[cfg(metrics_verif)]
+        metrics::__verif::point("block.push.claimed");
         if index >= BLOCK_SIZE {
             return Err(value);
         }
@@ -125,8 +127,12 @@ impl<T> Block<T> {
             self.slots.get_unchecked(index).assume_init_ref().get().write(value);
         }
 
+        #[cfg(metrics_verif)]
+        metrics::__verif::point("block.push.written");
         // Scoot our read index forward.
         self.read.fetch_or(1 << index, Ordering::AcqRel);
+        #[cfg(metrics_verif)]
+        metrics::__verif::point("block.push.published");
 
         Ok(())
     }
@@ -200,6 +206,8 @@ impl<T> AtomicBucket<T> {
     pub fn is_empty(&self) -> bool {
         let guard = &epoch_pin();
         let tail = self.tail.load(Ordering::Acquire, guard);
+        #[cfg(metrics_verif)]
+        metrics::__verif::point("bucket.is_empty.tail_loaded");
         if tail.is_null() {
             return true;
         }
@@ -217,6 +225,8 @@ impl<T> AtomicBucket<T> {
         loop {
             // Load the tail block, or install a new one.
             let mut tail = self.tail.load(Ordering::Acquire, guard);
+            #[cfg(metrics_verif)]
+            metrics::__verif::point("bucket.push.tail_loaded");
             if tail.is_null() {
                 // No blocks at all yet.  We need to create one.
                 match self.tail.compare_exchange(
@@ -231,6 +241,8 @@ impl<T> AtomicBucket<T> {
                     // Somebody else beat us, so just update our pointer.
                     Err(e) => tail = e.current,
                 }
+                #[cfg(metrics_verif)]
+                metrics::__verif::point("bucket.push.tail_installed");
             }
 
             // We have a block now, so we need to try writing to it.
@@ -241,6 +253,8 @@ impl<T> AtomicBucket<T> {
                 Ok(_) => return,
                 // The block was full, so we've been given the value back and we need to install a new block.
                 Err(value) => {
+                    #[cfg(metrics_verif)]
+                    metrics::__verif::point("bucket.push.block_full");
                     match self.tail.compare_exchange(
                         tail,
                         Owned::new(Block::new()),
@@ -252,7 +266,11 @@ impl<T> AtomicBucket<T> {
                         // the nextious block.
                         Ok(ptr) => {
                             let new_tail = unsafe { ptr.deref() };
+                            #[cfg(metrics_verif)]
+                            metrics::__verif::point("bucket.push.new_tail_cas_ok");
                             new_tail.next.store(tail, Ordering::Release);
+                            #[cfg(metrics_verif)]
+                            metrics::__verif::point("bucket.push.next_linked");
 
                             // Now push into our new block.
                             match new_tail.push(value) {
@@ -304,6 +322,8 @@ impl<T> AtomicBucket<T> {
         // While we have a valid block -- either `tail` or the next block as we keep reading -- we
         // load the data from each block and process it by calling `f`.
         let mut block_ptr = self.tail.load(Ordering::Acquire, guard);
+        #[cfg(metrics_verif)]
+        metrics::__verif::point("bucket.data.tail_loaded");
         while !block_ptr.is_null() {
             let block = unsafe { block_ptr.deref() };
 
@@ -311,12 +331,16 @@ impl<T> AtomicBucket<T> {
             // snoozing specifically yields the reading thread to ensure things are given a
             // chance to complete.
             while !block.is_quiesced() {
+                #[cfg(metrics_verif)]
+                metrics::__verif::spin("bucket.data.wait");
                 backoff.snooze();
             }
 
             // Read the data out of the block.
             let data = block.data();
             f(data);
+            #[cfg(metrics_verif)]
+            metrics::__verif::point("bucket.data.block_read");
 
             // Load the next block.
             block_ptr = block.next.load(Ordering::Acquire, guard);
@@ -359,6 +383,8 @@ impl<T> AtomicBucket<T> {
         // will see it as empty until another write proceeds.
         let guard = &epoch_pin();
         let mut block_ptr = self.tail.load(Ordering::Acquire, guard);
+        #[cfg(metrics_verif)]
+        metrics::__verif::point("bucket.clear.tail_loaded");
         if !block_ptr.is_null()
             && self
                 .tail
@@ -371,6 +397,8 @@ impl<T> AtomicBucket<T> {
                 )
                 .is_ok()
         {
+            #[cfg(metrics_verif)]
+            metrics::__verif::point("bucket.clear.detached");
             let backoff = Backoff::new();
             let mut freeable_blocks = Vec::new();
 
@@ -383,12 +411,16 @@ impl<T> AtomicBucket<T> {
                 // snoozing specifically yields the reading thread to ensure things are given a
                 // chance to complete.
                 while !block.is_quiesced() {
+                    #[cfg(metrics_verif)]
+                    metrics::__verif::spin("bucket.clear.wait");
                     backoff.snooze();
                 }
 
                 // Read the data out of the block.
                 let data = block.data();
                 f(data);
+                #[cfg(metrics_verif)]
+                metrics::__verif::point("bucket.clear.block_read");
 
                 // Load the next block and take the shared reference to the current.
                 let old_block_ptr =
